@@ -193,12 +193,12 @@ def all_stmts(fa: FuncAnalysis) -> List[ast.stmt]:
 
 
 def effect_sites(fa: FuncAnalysis) -> List[ast.AST]:
-    """All calls and stores of a function (anything that can have an effect)."""
+    """All calls and attribute / item stores of a function (anything that can have an effect outside the call; binding a local has none)."""
     out = []
     for n in walk_function(fa.f.node):
         if isinstance(n, ast.Call):
             out.append(n)
-        elif isinstance(n, (ast.Attribute, ast.Subscript, ast.Name)) and isinstance(n.ctx, (ast.Store, ast.Del)):
+        elif isinstance(n, (ast.Attribute, ast.Subscript)) and isinstance(n.ctx, (ast.Store, ast.Del)):
             out.append(n)
     return out
 
